@@ -746,6 +746,8 @@ class Interp:
                 native = getattr(_SAFE_MODULE_CONSTANTS[value.name], name, None)
                 if isinstance(native, (int, str, tuple, frozenset)) and not isinstance(native, bool):
                     return native
+            if value.name == "sys" and name == "maxsize":
+                return 2 ** 63 - 1  # round 11: "the largest machine integer" used as a stand-in for "no limit"
             return ExtRef(value.name + "." + name)
         if isinstance(value, ClassRef):
             cls = value.info
@@ -772,6 +774,8 @@ class Interp:
         if isinstance(value, ExtRef):
             if name == "__name__":
                 return value.name.rsplit(".", 1)[-1]
+            if value.name == "sys" and name == "maxsize":
+                return 2 ** 63 - 1  # round 11: "the largest machine integer" used as a stand-in for "no limit"
             return ExtRef(value.name + "." + name)
         if isinstance(value, SuperRef):
             mro = self.model.mro(value.self_value.cls)
@@ -2118,6 +2122,13 @@ def _set(interp, args, kwargs):
     for item in items:
         interp._check_hashable(item)
     return set(items)
+
+
+@_ext("re.escape")
+def _re_escape(interp, args, kwargs):
+    if len(args) == 1 and isinstance(args[0], str):
+        return _re.escape(args[0])
+    raise Undecided("re.escape of %r" % (args,))
 
 
 @_ext("builtins.frozenset")
